@@ -3,7 +3,7 @@ import collections, json, os
 import vp
 import tracecheck
 
-ALL_TXS = '{"t1", "t2", "t3", "t4", "t5", "t6", "t7", "p1", "p2", "p3", "p4", "p5", "p6", "p7", "p8", "p9", "p10", "w1", "w2", "w3", "w4", "w5", "c1", "p11", "x1", "x2", "b1", "b2", "b3", "s4"}'
+ALL_TXS = '{"t1", "t2", "t3", "t4", "t5", "t6", "t7", "t8", "p1", "p2", "p3", "p4", "p5", "p6", "p7", "p8", "p9", "p10", "w1", "w2", "w3", "w4", "w5", "c1", "p11", "x1", "x2", "b1", "b2", "b3", "s4"}'
 
 KF_DESC = {
     "KF_PoolMasksBlockOrder": "PlayAndRepost validates a peer block against the state that still contains the node's own "
@@ -65,13 +65,14 @@ def replay_validate(run, groups, extra_driver_args=(), trace_cfg="Trace_XState.c
     return total
 
 
-def engine_phase(run, num, ops=40, window=0, mc=True, tag=""):
+def engine_phase(run, num, ops=40, window=0, mc=True, tag="", extra_consts=None):
     """Engine.tla: the production block pipeline (Miner.ProcBlock -> trySyncBlock -> downloadMissBlock through a stub
     network -> batchConfirmBlock with the real single consensus -> Walk; Miner.mining; restarts). One pushed chain is
     explained by PushBegin, silent micro-steps (XState actions) and PushEnd."""
     if mc:
         run.tlc_mc("Engine.tla", "MC_Engine.cfg", timeout=3000)
     consts = {"MaxOps": ops, "MaxBlocks": 14, "Window": window}
+    consts.update(extra_consts or {})
     behs = run.tlc_gen("Gen_Engine.tla", "Gen_Engine.cfg", num, ops + 30, name="genE" + tag, seed=run.seed * 1000 + 77, consts=consts)
     cat = os.path.join(run.work, "genE" + tag, "catalog.json")
     known = {k: KF_DESC.get(k, d) + " [" + d + "]" for k, d in vp.known_keys(run.pid).items()}
@@ -80,7 +81,7 @@ def engine_phase(run, num, ops=40, window=0, mc=True, tag=""):
         kf_consts[k] = "TRUE"
         known.setdefault(k, None)
     tracecheck.replay_and_validate(run, behs, driver="engine-replay", driver_args=["-catalog", cat, "-window", str(window)],
-                                   trace_module="Trace_Engine.tla", trace_cfg="Trace_Engine.cfg", consts={"Window": window},
+                                   trace_module="Trace_Engine.tla", trace_cfg="Trace_Engine.cfg", consts=dict({"Window": window}, **(extra_consts or {})),
                                    kf_consts=kf_consts or None, kf_desc={k: known.get(k) for k in kf_consts}, name="E", batch=200)
     st = stats(behs)
     run.cov["engine_op_mix"] = dict(st)
